@@ -171,7 +171,7 @@ __xml_namespace__ = "https://dummy.com"
 ]
 
 
-# deciding counters: (quick, thorough) minima; workers keep going (up to 3x the wall
+# deciding counters: (quick, thorough) minima; workers keep going (up to 2x the wall
 # budget) until their share of these is reached, so that a loaded machine does not turn
 # the verdict inconclusive
 MINIMA = {
@@ -297,8 +297,8 @@ def worker(args) -> Tuple[Dict[str, Any], List[Tuple[str, str, bool]]]:
         # the generated models may use 80 % of the budget, the rest is kept for the corpus
         limit = chk.t0 + 0.8 * budget if text is None else deadline
         if time.time() > limit:
-            if text is None and not share_met(chk, MINIMA, SHARED_MINIMA, n_shards) and time.time() < chk.t0 + chk.pick(3.0, 1.5) * budget:
-                limit = chk.t0 + chk.pick(3.0, 1.5) * budget
+            if text is None and not share_met(chk, MINIMA, SHARED_MINIMA, n_shards) and time.time() < chk.t0 + chk.pick(2.0, 1.5) * budget:
+                limit = chk.t0 + chk.pick(2.0, 1.5) * budget
                 chk.count("models_run_past_the_budget_to_reach_minimum_counts")
             else:
                 chk.count("models_skipped_for_budget")
